@@ -29,6 +29,9 @@ EmptyDbs == [i \in DbIds |-> EmptyDb]
 InitServer(conns) == [dbs |-> EmptyDbs, now |-> 1000000, conn |-> [c \in conns |-> NewSess], orph |-> <<>>,
                       oid |-> [i \in DbIds |-> <<>>], nid |-> 0]
 \* a server state whose database 0 is d (object ids assigned arbitrarily but distinctly)
+\* ... and one whose databases are given by the function ds (database index -> database)
+WithDbs(S, ds) == [S EXCEPT !.dbs = [i \in DbIds |-> IF i \in DOMAIN ds THEN ds[i] ELSE EmptyDb],
+                            !.oid = [i \in DbIds |-> IF i \in DOMAIN ds THEN [k \in DOMAIN ds[i] |-> 1] ELSE <<>>], !.nid = 1]
 WithDb0(S, d) == [S EXCEPT !.dbs[0] = d, !.oid[0] = [k \in DOMAIN d |-> 1], !.nid = 1]
 
 \* result of Apply: successor state, reply, deviations used, deadline comparison hints
@@ -116,7 +119,7 @@ Select(S, c, a) ==
 (* FLUSHDB / FLUSHALL.  The emulator drops the database object from its table and only the
    caller re-selects: every other connection that had the database selected keeps reading and
    writing the orphaned object (shared among them) until its next SELECT.                      *)
-Orphaned(S, c, ids) == {x \in DOMAIN S.conn : x # c /\ S.conn[x].o = 0 /\ S.conn[x].db \in ids /\ DOMAIN S.dbs[S.conn[x].db] # {}}
+Orphaned(S, c, ids) == {x \in DOMAIN S.conn : x # c /\ S.conn[x].o = 0 /\ S.conn[x].db \in ids}
 RECURSIVE Detach(_, _, _)
 Detach(S, c, ids) ==
     IF Orphaned(S, c, ids) = {} THEN S
@@ -248,6 +251,10 @@ Apply(S, c, cmd) ==
                     IF ~ArityOk(cmd) THEN
                          (IF On("D_EXEC_RUNS_AFTER_QUEUE_ERROR") THEN SDev(S, RErr("ERR"), "D_EXEC_RUNS_AFTER_QUEUE_ERROR")
                           ELSE SOk([S EXCEPT !.conn[c].multi = "dirty"], RErr("ERR")))
+                    \* the emulator parses the arguments when it queues: what Redis would queue and fail at EXEC
+                    \* time (bad option, not an integer) is refused at once and not queued
+                    ELSE IF On("D_MULTI_REJECTS_UNPARSABLE_ARGS_AT_QUEUE_TIME") /\ IsParseErr(Run(S, c, cmd).r)
+                         THEN SDev(S, RErr("ERR"), "D_MULTI_REJECTS_UNPARSABLE_ARGS_AT_QUEUE_TIME")
                     ELSE SOk([S EXCEPT !.conn[c].queue = Append(@, cmd)], RSimple("QUEUED"))
     IN  [res EXCEPT !.S = Flag(S, res.S, nm)]
 
